@@ -1,18 +1,29 @@
 # Which test functions decide which property, and with what budgets.
 # checks = rapid cases per worker; workers default: quick 4, thorough 16.
 
+
 def unit(pkg, test, quick, thorough, replay=None, **kw):
     d = {"pkg": pkg, "test": test, "checks": {"quick": quick, "thorough": thorough}, "replay": replay}
     d.update(kw)
     return d
 
+
 PLAN = {
     "C01": {"level": "exploration", "units": [unit("cyc", "TestC01", 3000, 40000, replay="TestReplayC01")]},
-    "C04": {"level": "exploration", "units": [unit("cyc", "TestC04", 3000, 40000, replay="TestReplayC04")]},
     "C03": {"level": "exploration", "units": [unit("loop", "TestC03", 500, 8000, replay="TestReplayC03", shrinktime="30s")]},
-    "C05": {"level": "exploration", "units": [unit("cyc", "TestC05", 3000, 40000, replay="TestReplayC05"),
-                                              unit("loop", "TestC05Loop", 300, 5000, replay="TestReplayC05Loop", shrinktime="30s", seed_off=500)]},
+    "C04": {"level": "exploration", "units": [unit("cyc", "TestC04", 3000, 40000, replay="TestReplayC04")]},
+    "C05": {"level": "exploration", "units": [
+        unit("cyc", "TestC05", 3000, 40000, replay="TestReplayC05"),
+        unit("loop", "TestC05Loop", 300, 5000, replay="TestReplayC05Loop", shrinktime="30s", seed_off=500)]},
     "C06": {"level": "fault_enumeration", "units": [unit("loop", "TestC06", 500, 8000, replay="TestReplayC06", shrinktime="30s")]},
     "C07": {"level": "exploration", "units": [unit("cyc", "TestC07", 3000, 40000, replay="TestReplayC07")]},
     "C08": {"level": "exploration", "units": [unit("cyc", "TestC08", 3000, 40000, replay="TestReplayC08")]},
+    "C09": {"level": "fault_enumeration", "units": [
+        unit("side", "TestC09RoundTrip", 300, 4000, replay="TestReplayC09"),
+        unit("side", "TestC09Torn", 12, 150, shrinktime="30s", seed_off=300),
+        unit("side", "TestC09OldFile", 150, 2000, seed_off=600)]},
+    "C10": {"level": "exploration", "units": [unit("side", "TestC10", 600, 12000, replay="TestReplayC10")]},
+    "C12": {"level": "exploration", "units": [unit("side", "TestC12", 1000, 6000, replay="TestReplayC12")]},
+    "C13": {"level": "fault_enumeration", "units": [unit("side", "TestC13", 250, 3000, replay="TestReplayC13")]},
+    "C14": {"level": "exploration", "units": [unit("side", "TestC14", 1000, 15000, replay="TestReplayC14")]},
 }
